@@ -37,6 +37,9 @@ type Spec struct {
 	// Twin: while the directory is healed, another build (three files of 70000..200000 bytes, its directory
 	// missing) is healed again and again by another ValidatorContext in the same process; both must come out right
 	Twin bool `json:"twin,omitempty"`
+	// Name: file name of the archive: 0 build.zip, 1 build-48213, 2 build.zip.part, 3 archive.bin (a download
+	// kept under the name the server or a cache gave it; "archive,<path>" says what the file is)
+	Name int `json:"name,omitempty"`
 }
 
 var twinTree = h.Tree{
@@ -208,7 +211,7 @@ func check(s Spec) h.Result {
 		return h.Failf("signing failed: %v", err)
 	}
 	c := si.Container
-	zp := filepath.Join(d, "build.zip")
+	zp := filepath.Join(d, []string{"build.zip", "build-48213", "build.zip.part", "archive.bin"}[s.Name%4])
 	if s.Deflate {
 		if err := writeDeflateZip(zp, ref, s.Tree); err != nil {
 			return h.Result{Skip: "cannot write deflate archive: " + err.Error()}
@@ -231,6 +234,9 @@ func check(s Spec) h.Result {
 	cl = append(cl, fmt.Sprintf("gomaxprocs:%d", s.Procs))
 	if s.SigFile {
 		cl = append(cl, "signature:read-back-from-a-stream")
+	}
+	if s.Name%4 != 0 {
+		cl = append(cl, "archive:name-does-not-end-in-.zip")
 	}
 	if s.Deflate {
 		cl = append(cl, "archive:deflate-zip")
@@ -378,6 +384,9 @@ var prop = h.Prop[Spec]{
 		s.Deflate = rapid.IntRange(0, 2).Draw(t, "deflate-archive") == 0
 		s.SigFile = rapid.IntRange(0, 3).Draw(t, "signature-from-stream") == 0
 		s.Twin = rapid.IntRange(0, 3).Draw(t, "another-heal-at-the-same-time") == 0
+		if rapid.IntRange(0, 2).Draw(t, "archive-not-named-zip") == 0 {
+			s.Name = rapid.IntRange(1, 3).Draw(t, "archive-name")
+		}
 		return s
 	},
 	Check: check,
